@@ -8,6 +8,7 @@
 //   3 construction from one argument: is_constructible, is_trivially_, is_nothrow_ (+ concept)
 //   4 is_swappable_with, is_nothrow_swappable_with
 //   5 common_type, common_reference, common_with, common_reference_with, weakly-equality-comparable-with
+//   0 all of them in one binary (quick tier, round-2 mix)
 #include "c15_common.hpp"
 
 #ifndef MC_PART
@@ -24,11 +25,59 @@ using bin_ext  = tl<char, float, unsigned int, zoo::Scoped, int[3], int (&)[3], 
                     zoo::NonTrivial, zoo::MoveOnly, zoo::TrivDefUserCopy, zoo::ThrowCopy, zoo::ExplicitFromInt,
                     zoo::ExplicitToBool, zoo::Abstract, zoo::Derived&, zoo::Base const&, zoo::Agg&&,
                     zoo::DerivedPriv, int zoo::Agg::*, zoo::Agg, zoo::Agg const&, zoo::Empty>;
+// round 2 sub-zoos (-DC15_BIN_ZOO=2 / 3 / 4; each is crossed with itself):
+//  2 class hierarchy: public / protected / private / virtual / repeated (ambiguous) bases, cv variants, pointers,
+//    references and pointers to members of those classes, an incomplete class, a union
+//  3 conversions: conditionally explicit, templated and constrained constructors, conversion functions that exist
+//    only for non-const / rvalue / lvalue objects, to references, to anything, ambiguous ones, non-const and
+//    volatile copy constructors, private / protected constructors, ref-qualified and proxy assignment, references
+//    to arrays and functions, noexcept function pointers, closure types, enumerations with fixed underlying type
+//  4 the quick-tier mix of 2 and 3
+using bin_hier = tl<zoo::Base, zoo::Derived, zoo::Left, zoo::Right, zoo::Diamond, zoo::DerivedProt, zoo::DerivedPriv,
+                    zoo::DerivedVirt, zoo::VDiamond, zoo::Base const, zoo::Diamond volatile, zoo::Incomplete, zoo::UnionTriv,
+                    zoo::Base*, zoo::Derived*, zoo::Left*, zoo::Diamond*, zoo::DerivedProt*, zoo::VDiamond*, zoo::Base const*,
+                    zoo::Diamond const volatile*, void const*, void*, zoo::Incomplete*, zoo::Base&, zoo::Base&&, zoo::Base const&,
+                    zoo::Derived&, zoo::Diamond&, zoo::Left&, zoo::VDiamond&&, int zoo::Base::*,
+                    int zoo::Derived::*, int zoo::Diamond::*, int zoo::VDiamond::*, int const zoo::Base::*,
+                    void (zoo::Base::*)(), void (zoo::Derived::*)(), void (zoo::Base::*)() noexcept,
+                    void (zoo::Derived::*)() const, void (zoo::Diamond::*)(), zoo::Base[2], zoo::Derived (&)[2]>;
+using bin_conv = tl<void, int, int&, int const&, int&&, int volatile&, double, long, bool, char, int*, int const*,
+                    std::nullptr_t, __int128, zoo::UnscopedBool, zoo::ScopedNeg, zoo::UnscopedNeg,
+                    int[3], int (&)[3], int const (&)[3], int (&&)[3], int[], int (&)[], char const (&)[4], char const*,
+                    void(), void (&)(), void (*)(), void (*)() noexcept, void (&)() noexcept, void() const, zoo::Lambda,
+                    zoo::ToFnPtr, int (*)(int),
+                    zoo::CondExplicit<int>, zoo::CondExplicit<char>, zoo::FromAny, zoo::FromArith, zoo::ToIntNonConst,
+                    zoo::ToIntNonConst const&, zoo::ToIntRvalue, zoo::ToIntRvalue&, zoo::ToIntLvalue&, zoo::ToIntLvalue,
+                    zoo::ToIntRef, zoo::ToAny, zoo::ExplicitToInt, zoo::AmbiguousToNumber, zoo::NonConstCopy,
+                    zoo::NonConstCopy&, zoo::NonConstCopy const&, zoo::VolatileCopy, zoo::VolatileCopy volatile&,
+                    zoo::PrivateCopy, zoo::PrivateCopy&, zoo::ProtectedCtor, zoo::RefQualAssign, zoo::RefQualAssign&,
+                    zoo::AssignFromInt&, zoo::ConstAssign const&, zoo::ConstAssign, zoo::AssignReturnsVoid&,
+                    zoo::SwapWithInt&, zoo::EqWithInt, zoo::Agg, zoo::Agg&, zoo::Immovable, zoo::ThrowDtor, zoo::CopyOnly,
+                    zoo::ToCopyOnlyCRef>;
+using bin_mix  = tl<zoo::Base, zoo::Diamond, zoo::Diamond volatile, zoo::DerivedProt, zoo::Base*, zoo::Diamond*, zoo::Base&,
+                    int zoo::Base::*, int zoo::Derived::*, void (zoo::Derived::*)(), int, int&, int (&)[3],
+                    void (*)(), void (*)() noexcept, zoo::Lambda, zoo::CondExplicit<char>, zoo::FromAny,
+                    zoo::ToIntNonConst const&, zoo::ToIntRvalue&, zoo::ToAny, zoo::NonConstCopy,
+                    zoo::NonConstCopy const&, zoo::ConstAssign const&, zoo::CopyOnly, zoo::ToCopyOnlyCRef>;
 // clang-format on
-#if defined(C15_QUICK_ZOO)
+#ifndef C15_BIN_ZOO
+    #define C15_BIN_ZOO 1
+#endif
+#if C15_BIN_ZOO == 2
+using bin_zoo = bin_hier;
+    #define C15_BJOB(NAME) NAME "/hierarchy"
+#elif C15_BIN_ZOO == 3
+using bin_zoo = bin_conv;
+    #define C15_BJOB(NAME) NAME "/conversions"
+#elif C15_BIN_ZOO == 4
+using bin_zoo = bin_mix;
+    #define C15_BJOB(NAME) NAME "/zoo2"
+#elif defined(C15_QUICK_ZOO)
 using bin_zoo = bin_core;
+    #define C15_BJOB(NAME) NAME
 #else
 using bin_zoo = tl_cat_t<bin_core, bin_ext>;
+    #define C15_BJOB(NAME) NAME
 #endif
 using pairs = cross_t<bin_zoo, bin_zoo>;
 
@@ -73,33 +122,49 @@ constexpr bool nothrow_swappable_with_gap()
     }
 }
 
-#if MC_PART == 1
+// std preconditions: every operand shall be complete, cv void or an array of unknown bound, and [meta.rqmts]/5
+// forbids an instantiation whose result could change if the incomplete class were completed (a pointer or reference
+// to it could become convertible to a pointer / reference to a base): pairs that mention zoo::Incomplete at all are
+// compared for is_same only, and for is_base_of where the standard does not need the completeness
+template <typename T>
+inline constexpr bool inc
+    = incomplete_core<T> || incomplete_core<std::remove_pointer_t<std::remove_reference_t<T>>>;
+template <typename T, typename U>
+inline constexpr bool pair_ok = !inc<T> && !inc<U>;
+template <typename B, typename D>
+inline constexpr bool base_ok = !(std::is_same_v<std::remove_cv_t<D>, zoo::Incomplete> && std::is_class_v<B> && !std::is_same_v<std::remove_cv_t<B>, zoo::Incomplete>);
+
+#if MC_PART == 1 || MC_PART == 0
 C15_VALUE2(is_same, true, false)
-C15_VALUE2(is_base_of, true, false)
-C15_VALUE2(is_convertible, true, false)
-C15_VALUE2(is_nothrow_convertible, true, false)
+C15_VALUE2(is_base_of, (base_ok<T, U>), false)
+C15_VALUE2(is_convertible, (pair_ok<T, U>), false)
+C15_VALUE2(is_nothrow_convertible, (pair_ok<T, U>), false)
 C15_CONCEPT2(same_as, std::same_as, true, false)
-C15_CONCEPT2(derived_from, std::derived_from, true, false)
-C15_CONCEPT2(convertible_to, std::convertible_to, true, false)
-#elif MC_PART == 2
-C15_VALUE2(is_assignable, true, false)
-C15_VALUE2(is_trivially_assignable, true, false)
-C15_VALUE2(is_nothrow_assignable, true, false)
-C15_CONCEPT2(assignable_from, std::assignable_from, true, false)
-#elif MC_PART == 3
-C15_VALUE2(is_constructible, true, false)
-C15_VALUE2(is_trivially_constructible, true, false)
-C15_VALUE2(is_nothrow_constructible, !lwg2116<T>, (std::is_constructible_v<T, U> && !can_static_cast<U, T>))
-C15_CONCEPT2(constructible_from, std::constructible_from, true, false)
-#elif MC_PART == 4
-C15_VALUE2(is_swappable_with, true, false)
-C15_VALUE2(is_nothrow_swappable_with, true, (nothrow_swappable_with_gap<T, U>()))
-#elif MC_PART == 5
-C15_TYPE2(common_type, true, false)
-C15_TYPE2(common_reference, true, false)
-C15_CONCEPT2(common_with, std::common_with, true, false)
-C15_CONCEPT2(common_reference_with, std::common_reference_with, true, false)
-C15_CONCEPT2(weakly_equality_comparable_with, std::__detail::__weakly_eq_cmp_with, true, false)
+C15_CONCEPT2(derived_from, std::derived_from, (base_ok<U, T> && !inc<T>), false)
+C15_CONCEPT2(convertible_to, std::convertible_to, (pair_ok<T, U>), false)
+#endif
+#if MC_PART == 2 || MC_PART == 0
+C15_VALUE2(is_assignable, (pair_ok<T, U>), false)
+C15_VALUE2(is_trivially_assignable, (pair_ok<T, U>), false)
+C15_VALUE2(is_nothrow_assignable, (pair_ok<T, U>), false)
+C15_CONCEPT2(assignable_from, std::assignable_from, (pair_ok<T, U>), false)
+#endif
+#if MC_PART == 3 || MC_PART == 0
+C15_VALUE2(is_constructible, (pair_ok<T, U>), false)
+C15_VALUE2(is_trivially_constructible, (pair_ok<T, U>), false)
+C15_VALUE2(is_nothrow_constructible, (pair_ok<T, U> && !lwg2116<T>), false)
+C15_CONCEPT2(constructible_from, std::constructible_from, (pair_ok<T, U>), false)
+#endif
+#if MC_PART == 4 || MC_PART == 0
+C15_VALUE2(is_swappable_with, (pair_ok<T, U>), false)
+C15_VALUE2(is_nothrow_swappable_with, (pair_ok<T, U>), false)
+#endif
+#if MC_PART == 5 || MC_PART == 0
+C15_TYPE2(common_type, (pair_ok<T, U>), false)
+C15_TYPE2(common_reference, (pair_ok<T, U>), false)
+C15_CONCEPT2(common_with, std::common_with, (pair_ok<T, U>), false)
+C15_CONCEPT2(common_reference_with, std::common_reference_with, (pair_ok<T, U>), false)
+C15_CONCEPT2(weakly_equality_comparable_with, std::__detail::__weakly_eq_cmp_with, (pair_ok<T, U>), false)
 #endif
 
 } // namespace c15
@@ -108,28 +173,32 @@ int main(int argc, char** argv)
 {
     using namespace c15;
     mc::Main m(argc, argv);
-#if MC_PART == 1
-    m.job("binary-relations", {"quick", "thorough"}, [](mc::Reporter& r) {
+#if MC_PART == 1 || MC_PART == 0
+    m.job(C15_BJOB("binary-relations"), {"quick", "thorough"}, [](mc::Reporter& r) {
         run_columns<pairs, is_same_S2, is_same_V2, is_base_of_S2, is_base_of_V2, is_convertible_S2, is_convertible_V2,
             is_nothrow_convertible_S2, is_nothrow_convertible_V2, same_as_C2, derived_from_C2, convertible_to_C2>(r);
     });
-#elif MC_PART == 2
-    m.job("binary-assign", {"quick", "thorough"}, [](mc::Reporter& r) {
+#endif
+#if MC_PART == 2 || MC_PART == 0
+    m.job(C15_BJOB("binary-assign"), {"quick", "thorough"}, [](mc::Reporter& r) {
         run_columns<pairs, is_assignable_S2, is_assignable_V2, is_trivially_assignable_S2, is_trivially_assignable_V2,
             is_nothrow_assignable_S2, is_nothrow_assignable_V2, assignable_from_C2>(r);
     });
-#elif MC_PART == 3
-    m.job("binary-construct", {"quick", "thorough"}, [](mc::Reporter& r) {
+#endif
+#if MC_PART == 3 || MC_PART == 0
+    m.job(C15_BJOB("binary-construct"), {"quick", "thorough"}, [](mc::Reporter& r) {
         run_columns<pairs, is_constructible_S2, is_constructible_V2, is_trivially_constructible_S2,
             is_trivially_constructible_V2, is_nothrow_constructible_S2, is_nothrow_constructible_V2, constructible_from_C2>(r);
     });
-#elif MC_PART == 4
-    m.job("binary-swap", {"quick", "thorough"}, [](mc::Reporter& r) {
+#endif
+#if MC_PART == 4 || MC_PART == 0
+    m.job(C15_BJOB("binary-swap"), {"quick", "thorough"}, [](mc::Reporter& r) {
         run_columns<pairs, is_swappable_with_S2, is_swappable_with_V2, is_nothrow_swappable_with_S2,
             is_nothrow_swappable_with_V2>(r);
     });
-#elif MC_PART == 5
-    m.job("binary-common", {"quick", "thorough"}, [](mc::Reporter& r) {
+#endif
+#if MC_PART == 5 || MC_PART == 0
+    m.job(C15_BJOB("binary-common"), {"quick", "thorough"}, [](mc::Reporter& r) {
         run_columns<pairs, common_type_T2, common_type_A2, common_reference_T2, common_reference_A2,
             common_with_C2, common_reference_with_C2, weakly_equality_comparable_with_C2>(r);
     });
